@@ -325,3 +325,140 @@ func pooledRelease(p *load.Program, r *core.Report, rule, rid string, floor int,
 		})
 	}
 }
+
+// pooledIntra: inside one function, a pooled object that has been released is not released again and
+// not handed on, along any path — a forward data flow over the set of released SSA values, through
+// phi nodes (the loop variable that still holds the released object when the loop is re-entered) and
+// killed at re-definition (the next Pop yields a new object). One obligation per function that
+// releases objects of the kind.
+func pooledIntra(p *load.Program, r *core.Report, rule, rid string, floor int, kind string, inScope func(*ssa.Function) bool) {
+	r.Floor(rule, floor)
+	var all []*ssa.Function
+	for f := range ssautil.AllFunctions(p.SSA) {
+		if fnInModule(f) && len(f.Blocks) > 0 && inScope(f) {
+			all = append(all, f)
+		}
+	}
+	sort.Slice(all, func(i, j int) bool { return all[i].String() < all[j].String() })
+	for _, f := range all {
+		n := 0
+		eachInstr(f, func(in ssa.Instruction) {
+			if cc := callCommon(in); cc != nil && isReleasePrimitive(cc) && len(cc.Args) > 0 && pooledKind(cc.Args[0].Type()) == kind {
+				if _, isDefer := in.(*ssa.Defer); !isDefer {
+					n++
+				}
+			}
+		})
+		if n == 0 {
+			continue
+		}
+		type set map[ssa.Value]bool
+		in := map[*ssa.BasicBlock]set{f.Blocks[0]: {}}
+		out := map[*ssa.BasicBlock]set{}
+		var problems []string
+		seenP := map[string]bool{}
+		step := func(b *ssa.BasicBlock, s set, report bool) set {
+			cur := set{}
+			for k := range s {
+				cur[k] = true
+			}
+			for _, x := range b.Instrs {
+				if _, isPhi := x.(*ssa.Phi); isPhi {
+					continue
+				}
+				if cc := callCommon(x); cc != nil {
+					if _, isDefer := x.(*ssa.Defer); !isDefer {
+						if isReleasePrimitive(cc) && len(cc.Args) > 0 && pooledKind(cc.Args[0].Type()) == kind {
+							v := cc.Args[0]
+							if cur[v] && report {
+								k := "released again at " + p.Pos(x.Pos())
+								if !seenP[k] {
+									seenP[k] = true
+									problems = append(problems, k)
+								}
+							}
+							cur[v] = true
+						} else {
+							for _, a := range cc.Args {
+								if cur[stripIface(a)] && pooledKind(stripIface(a).Type()) == kind && report {
+									k := "handed on at " + p.Pos(x.Pos()) + " after it was released"
+									if !seenP[k] {
+										seenP[k] = true
+										problems = append(problems, k)
+									}
+								}
+							}
+						}
+					}
+				}
+				// a re-definition yields a new object
+				if v, ok := x.(ssa.Value); ok && cur[v] {
+					delete(cur, v)
+				}
+			}
+			return cur
+		}
+		work := []*ssa.BasicBlock{f.Blocks[0]}
+		for len(work) > 0 {
+			b := work[len(work)-1]
+			work = work[:len(work)-1]
+			o := step(b, in[b], false)
+			out[b] = o
+			for _, succ := range b.Succs {
+				ns := set{}
+				for k := range o {
+					ns[k] = true
+				}
+				// phis of succ: killed, then set from this edge
+				pi := -1
+				for i, pr := range succ.Preds {
+					if pr == b {
+						pi = i
+					}
+				}
+				for _, x := range succ.Instrs {
+					ph, ok := x.(*ssa.Phi)
+					if !ok {
+						break
+					}
+					delete(ns, ph)
+					if pi >= 0 && o[ph.Edges[pi]] {
+						ns[ph] = true
+					}
+				}
+				old := in[succ]
+				changed := old == nil
+				if old == nil {
+					old = set{}
+				}
+				for k := range ns {
+					if !old[k] {
+						old[k] = true
+						changed = true
+					}
+				}
+				in[succ] = old
+				if changed {
+					work = append(work, succ)
+				}
+			}
+		}
+		var bl []*ssa.BasicBlock
+		for b := range in {
+			bl = append(bl, b)
+		}
+		sort.Slice(bl, func(i, j int) bool { return bl[i].Index < bl[j].Index })
+		for _, b := range bl {
+			step(b, in[b], true)
+		}
+		fn := fname(f)
+		key := rid + "|" + fn
+		inst := fmt.Sprintf("a %s released in this function is neither released again nor handed on afterwards", kind)
+		if len(problems) > 0 {
+			sort.Strings(problems)
+			r.Bad(rule, key, fn, p.Pos(f.Pos()), inst, strings.Join(problems, "; ")+": the pool hands the same object to two later users (messages lost, delivered to the wrong process or with another request's reference)")
+		} else {
+			r.OK(rule, key, fn, p.Pos(f.Pos()), inst, fmt.Sprintf("%d release site(s), %d blocks: no released value reaches a second release or a hand-over", n, len(bl)))
+		}
+	}
+}
